@@ -71,7 +71,7 @@ the name of a native field of the message nor an "unknown…" name; values of th
 def devsOK (file : List Message) : Bool :=
   let ds := descsOf file
   ds.all (fun d => !d.name.isEmpty && !isPrefixOf' unknownTxt d.name && commasIn d.name == 0 && commasIn d.units == 0 &&
-    d.name.all keepByte && d.units.all keepByte && d.scale == 255 && d.offset == 127) &&   -- `|` joins the parts of a name
+    d.name.all keepByte && d.units.all keepByte) &&   -- `|` joins the parts of a name
   (ds.map (·.name)).eraseDups.length == ds.length &&
   (ds.map fun d => (d.devIdx, d.num)).eraseDups.length == ds.length &&
   file.all fun m => m.devFields.all fun dv =>
@@ -125,6 +125,16 @@ def hasPayloadNaN : List (List Message) → Bool := anyValue fun v =>
     | .float32 b => isNaN32 b && b != 0x7FC00000
     | .float64 b => isNaN64 b && b != canonNaN64
     | _ => false
+
+/-- KF-C19-6: a developer field of a float base type whose (most recent) description carries a scale or an offset: the
+writer prints developer field values as they are, the reader un-scales every cell whose text contains a '.' -/
+def hasScaledFloatDev (files : List (List Message)) : Bool :=
+  files.any fun file =>
+    let ds := descsOf file
+    file.any fun m => m.devFields.any fun dv =>
+      match findDesc ds dv.devIdx dv.num with
+      | some d => (d.bt == btFloat32 || d.bt == btFloat64) && (d.scale != 255 || d.offset != 127)
+      | none => false
 
 /-- KF-C19-4: a message number of the manufacturer-range marks: `MesgNum.String()` names it but the reader's lookup
 leaves numbers ≥ MfgRangeMin out and the name has no digits -/
